@@ -698,6 +698,37 @@ def classify_subst(a, out):
     return f"members={min(len(a['subs']), 4)}/{'transitive' if chain else 'flat'}/refs={min(len(a['refs']), 3)}"
 
 
+# ------------------------------------------------------------------ compound fields (Gen/Compound.lean)
+def gen_compound(rng, tier):
+    for p in particles(rng, n_cases(tier, 250, 5000), dup_share=0.4):
+        try:
+            sites = G.real_stage(G.real_xsd_sites(G.particle_xsd(p)), "all")
+        except Exception:  # noqa: BLE001
+            continue
+        # sequence ids as ResetAttributeSequences leaves them is not modelled: keep the raw ones (renumbered)
+        yield {"sites": G.renumber(sites)}
+
+
+def impl_compound(a):
+    try:
+        return ok(G.real_compound(a["sites"]))
+    except Exception as e:  # noqa: BLE001
+        return err("LEAK:" + type(e).__name__)
+
+
+def classify_compound(a, out):
+    ss = a["sites"]
+    groups = {}
+    for s_ in ss:
+        if s_["choice"]:
+            groups.setdefault(s_["choice"], []).append(s_)
+    big = [g for g in groups.values() if len(g) > 1]
+    eff = any(c < 0 for c in groups)
+    deep = max((len(s_["path"]) for g in big for s_ in g), default=0)
+    seqs = any(len({s_["sequence"] for s_ in g}) == 1 and g[0]["sequence"] for g in big)
+    return f"groups={min(len(big), 3)}/{'effective' if eff else 'real'}/pathlen={min(deep, 4)}/{'one-sequence' if seqs else 'mixed-sequence'}"
+
+
 CORRS = [
     Corr("gen.xsd_sites", gen_sites, impl_sites, canon=canon_sites, classify=classify_particle, describe="SchemaParser+SchemaMapper element sites and paths vs model"),
     Corr("gen.calc_paths", stage_gen("calc"), stage_impl("calc"), classify=classify_sites, describe="CalculateAttributePaths.process vs model"),
@@ -741,6 +772,9 @@ CORRS = [
          describe="Filters.field_metadata namespace entry + XmlMetaBuilder.resolve_namespaces on constructed attrs vs model"),
     Corr("gen.ns_fields", gen_ns_fields, impl_ns_fields, classify=classify_ns,
          describe="namespaces and forms: whole real pipeline (imports, chameleon include) + stand-in renderer + XmlContext: namespace of the qualified name of the class and of every field vs model"),
+    Corr("gen.compound", gen_compound, impl_compound, classify=classify_compound,
+         nontrivial=lambda a, o: any("compound" in x for x in (o.get("ok") or [])),
+         describe="CreateCompoundFields.process (compound fields enabled: group_fields, update_counters, sum_counters, sequence) on the attrs the real FLATTEN handlers leave vs model"),
     Corr("c02.e2e", gen_e2e, impl_e2e, spec=spec_e2e,
          describe="spec-level: schema (typed elements, unions) -> real pipeline under default / compound-field / output-only options -> strict parse of valid documents -> re-serialise; expected: faithful"),
 ]
